@@ -10,6 +10,7 @@ import (
 	"github.com/pingcap/kvproto/pkg/metapb"
 	"github.com/pingcap/kvproto/pkg/pdpb"
 	"github.com/tikv/pd/pkg/typeutil"
+	"github.com/tikv/pd/server/core"
 	"github.com/tikv/pd/pkg/verifshim/sched"
 	"github.com/tikv/pd/pkg/verifshim/vclock"
 	"verif/checks/srvh"
@@ -86,6 +87,19 @@ func (w *world) check(r *sched.Run) (string, *explore.Violation) {
 		return "", &explore.Violation{Key: fmt.Sprintf("winners-%d", len(winners)), Msg: fmt.Sprintf("%d bootstrap requests succeeded, want exactly 1: %s", len(winners), strings.Join(l, " | "))}
 	}
 	keys := clusterKeys(w.st)
+	// what a restarted / newly elected leader would load as regions (region storage included)
+	for _, s := range w.srvs {
+		var loaded []uint64
+		s.GetStorage().LoadRegions(func(r *core.RegionInfo) []*core.RegionInfo {
+			loaded = append(loaded, r.GetID())
+			return nil
+		})
+		for _, id := range loaded {
+			if len(winners) != 1 || id != winners[0].req.GetRegion().GetId() {
+				return "", &explore.Violation{Key: "refused-region-in-storage", Msg: fmt.Sprintf("server %d would load region %d from its region storage, which does not come from the winning bootstrap request (winners: %d)", s.ID, id, len(winners))}
+			}
+		}
+	}
 	if len(winners) == 1 {
 		win := winners[0]
 		sv, _ := win.req.Store.Marshal()
@@ -187,8 +201,11 @@ func (w *world) leader(id int) *srvh.Srv {
 	return s
 }
 
+// lease / leader atomics are not scheduling points where leadership does not change
+var noAtomics = sched.Options{Kinds: uint32(1<<sched.KLock | 1<<sched.KRLock | 1<<sched.KEtcd | 1<<sched.KUser | 1<<sched.KWait | 1<<sched.KStart | 1<<sched.KYield)}
+
 func concurrent(n int, bad []string, pre int, tiers, name string) *explore.Scenario {
-	return &explore.Scenario{Name: name, MaxPre: pre, Tiers: tiers, Setup: func() *explore.Instance {
+	return &explore.Scenario{Name: name, MaxPre: pre, Tiers: tiers, Opts: noAtomics, Setup: func() *explore.Instance {
 		w := mkWorld()
 		s := w.leader(1)
 		var names []string
